@@ -175,62 +175,77 @@ func runC16(ctx *Ctx, idx int) {
 	}
 	ctx.Count("type:"+k.name, 1)
 
-	// ---- invalid inputs first (independent of the valid build)
+	// ---- invalid inputs first (independent of the valid build): an equal or a
+	// descending neighbour at EVERY position of short lists, at seeded
+	// positions of long ones
 	if n >= 1 {
-		bad := append([]int32{}, ixs...)
-		pos := r.Intn(n)
-		kind := "equal"
-		if r.Bool() && n >= 2 {
-			// descending neighbours
-			if pos == n-1 {
-				pos--
+		var positions []int
+		if n <= 16 {
+			for p := 0; p < n; p++ {
+				positions = append(positions, p)
 			}
-			bad[pos], bad[pos+1] = bad[pos+1], bad[pos]
-			kind = "descending"
+			ctx.Count("invalid:every_position_lists", 1)
 		} else {
-			// equal neighbours: duplicate index pos
-			bad = append(bad[:pos+1], bad[pos:]...)
+			positions = []int{0, n - 1, r.Intn(n), r.Intn(n)}
 		}
-		bvals := make([]uint64, len(bad))
-		var err error
-		var isNil bool
-		pv, stack := try(func() { _, _, _, err, isNil = k.build(bad, bvals) })
-		if pv != nil {
-			viol("invalid-index-panic", map[string]interface{}{"panic": fmt.Sprint(pv), "stack": stack, "kind": kind, "position": pos})
-		} else if errors.Cause(err) != array.ErrIndexNotAscending || !isNil {
-			viol("invalid-index-not-rejected", map[string]interface{}{"error": fmt.Sprint(err), "array_nil": isNil, "kind": kind, "position": pos})
-		} else {
-			ctx.Count("rejected:ErrIndexNotAscending:"+kind, 1)
-		}
-		// generic constructor too
-		var ga *array.Array
-		pv, _ = try(func() { ga, err = array.New(bad, k.slice(bvals)) })
-		if pv != nil || errors.Cause(err) != array.ErrIndexNotAscending || ga != nil {
-			viol("invalid-index-not-rejected-generic", map[string]interface{}{"error": fmt.Sprint(err), "panic": fmt.Sprint(pv), "kind": kind})
+		for _, pos := range positions {
+			for _, kind := range []string{"equal", "descending"} {
+				bad := append([]int32{}, ixs...)
+				if kind == "descending" {
+					if n < 2 {
+						continue
+					}
+					p := pos
+					if p == n-1 {
+						p--
+					}
+					bad[p], bad[p+1] = bad[p+1], bad[p]
+				} else {
+					bad = append(bad[:pos+1], bad[pos:]...)
+				}
+				bvals := make([]uint64, len(bad))
+				var err error
+				var isNil bool
+				pv, stack := try(func() { _, _, _, err, isNil = k.build(bad, bvals) })
+				if pv != nil {
+					viol("invalid-index-panic", map[string]interface{}{"panic": fmt.Sprint(pv), "stack": stack, "kind": kind, "position": pos})
+				} else if errors.Cause(err) != array.ErrIndexNotAscending || !isNil {
+					viol("invalid-index-not-rejected", map[string]interface{}{"error": fmt.Sprint(err), "array_nil": isNil, "kind": kind, "position": pos})
+				} else {
+					ctx.Count("rejected:ErrIndexNotAscending:"+kind, 1)
+				}
+				// generic constructor too
+				var ga *array.Array
+				pv, _ = try(func() { ga, err = array.New(bad, k.slice(bvals)) })
+				if pv != nil || errors.Cause(err) != array.ErrIndexNotAscending || ga != nil {
+					viol("invalid-index-not-rejected-generic", map[string]interface{}{"error": fmt.Sprint(err), "panic": fmt.Sprint(pv), "kind": kind, "position": pos})
+				}
+			}
 		}
 	}
 	{
 		// mismatched lengths
-		d := []int{1, -1, 2, -2, r.Range(3, 50), -r.Range(3, 50), n, -n}[r.Intn(8)]
-		ln := n + d
-		if ln < 0 {
-			ln = 0
-		}
-		if ln != n {
-			var err error
-			var isNil bool
-			pv, stack := try(func() { _, _, _, err, isNil = k.build(ixs, make([]uint64, ln)) })
-			if pv != nil {
-				viol("length-mismatch-panic", map[string]interface{}{"panic": fmt.Sprint(pv), "stack": stack, "elts_len": ln})
-			} else if errors.Cause(err) != array.ErrIndexLen || !isNil {
-				viol("length-mismatch-not-rejected", map[string]interface{}{"error": fmt.Sprint(err), "array_nil": isNil, "elts_len": ln})
-			} else {
-				ctx.Count("rejected:ErrIndexLen", 1)
+		for _, d := range []int{1, -1, []int{2, -2, r.Range(3, 50), -r.Range(3, 50), n, -n}[r.Intn(6)]} {
+			ln := n + d
+			if ln < 0 {
+				ln = 0
 			}
-			var ga *array.Array
-			pv, _ = try(func() { ga, err = array.New(ixs, k.slice(make([]uint64, ln))) })
-			if pv != nil || errors.Cause(err) != array.ErrIndexLen || ga != nil {
-				viol("length-mismatch-not-rejected-generic", map[string]interface{}{"error": fmt.Sprint(err), "panic": fmt.Sprint(pv), "elts_len": ln})
+			if ln != n {
+				var err error
+				var isNil bool
+				pv, stack := try(func() { _, _, _, err, isNil = k.build(ixs, make([]uint64, ln)) })
+				if pv != nil {
+					viol("length-mismatch-panic", map[string]interface{}{"panic": fmt.Sprint(pv), "stack": stack, "elts_len": ln})
+				} else if errors.Cause(err) != array.ErrIndexLen || !isNil {
+					viol("length-mismatch-not-rejected", map[string]interface{}{"error": fmt.Sprint(err), "array_nil": isNil, "elts_len": ln})
+				} else {
+					ctx.Count("rejected:ErrIndexLen", 1)
+				}
+				var ga *array.Array
+				pv, _ = try(func() { ga, err = array.New(ixs, k.slice(make([]uint64, ln))) })
+				if pv != nil || errors.Cause(err) != array.ErrIndexLen || ga != nil {
+					viol("length-mismatch-not-rejected-generic", map[string]interface{}{"error": fmt.Sprint(err), "panic": fmt.Sprint(pv), "elts_len": ln})
+				}
 			}
 		}
 	}
@@ -476,7 +491,7 @@ func runC16(ctx *Ctx, idx int) {
 func init() {
 	register(&CheckDef{
 		ID: "C16", Level: "exploration",
-		Rule: "case = (array type U16/U32/U64/I16/I32/I64, ascending index set in [0,2^20) - empty, single, dense, holes, sparse with empty 64-bit words, clusters, word boundaries, top of range - and full-range elements); oracle: a Go map compared at every index of the bitmap span (spans <= 2^16) or all present indexes, their neighbours and 10^4 random probes, through the typed accessor, Base.GetBytes, array.New and NewEmpty+Init generic accessors, and after proto round trips into the typed and the generic type (and generic -> typed); re-marshal reproduces the bytes; struct elements through the generic array; an equal or descending neighbour at a random position and a length mismatch are rejected with ErrIndexNotAscending / ErrIndexLen (by identity) and a nil array; non-trivial = at least 2 elements",
+		Rule: "case = (array type U16/U32/U64/I16/I32/I64, ascending index set in [0,2^20) - empty, single, dense, holes, sparse with empty 64-bit words, clusters, word boundaries, top of range - and full-range elements); oracle: a Go map compared at every index of the bitmap span (spans <= 2^16) or all present indexes, their neighbours and 10^4 random probes, through the typed accessor, Base.GetBytes, array.New and NewEmpty+Init generic accessors, and after proto round trips into the typed and the generic type (and generic -> typed); re-marshal reproduces the bytes; struct elements through the generic array; an equal and a descending neighbour at every position of lists of <=16 indexes (4 seeded positions of longer ones) and length mismatches of +1, -1 and a seeded amount are rejected with ErrIndexNotAscending / ErrIndexLen (by identity) and a nil array; non-trivial = at least 2 elements",
 		NumCases: func(tier string) int {
 			if tier == "thorough" {
 				return 40000
@@ -486,7 +501,7 @@ func init() {
 		Run:           runC16,
 		MinNontrivial: func(tier string) int { return 500 },
 		Gates: shapeGates("type:U16", "type:U32", "type:U64", "type:I16", "type:I32", "type:I64", "arrays:all_indexes_probed", "arrays:with_empty_words", "arrays:empty", "arrays:single",
-			"arrays:struct_elements", "rejected:ErrIndexNotAscending:equal", "rejected:ErrIndexNotAscending:descending", "rejected:ErrIndexLen", "probes:typed-after-roundtrip", "probes:generic-after-roundtrip"),
+			"arrays:struct_elements", "rejected:ErrIndexNotAscending:equal", "rejected:ErrIndexNotAscending:descending", "rejected:ErrIndexLen", "invalid:every_position_lists", "probes:typed-after-roundtrip", "probes:generic-after-roundtrip"),
 		Assumptions: []string{"probes stay inside the bitmap span, as the statement says"},
 	})
 }
